@@ -1,6 +1,7 @@
 import NixModel.Pure.Upgrade
 import NixModel.Lemmas.C18Resume
 import NixModel.Lemmas.C18Content
+import NixModel.Lemmas.C18Repeat
 
 /-!
 # C18 — format upgrade preserves content, is idempotent and resumable
@@ -94,6 +95,14 @@ theorem C18_idempotent (lib : List Nat) (r r' : Nat) (f : File) :
         | some e => rw [hp] at hok; simp at hok
         | none => exact upToDate_refl lib _ rfl
   exact ⟨collect_upToDate hup, hA _ hup r'⟩
+
+/-- Safe to repeat: a task list collected *before* a successful upgrade (the file named twice in one
+call, a second instance of the tool) does nothing to the upgraded file and does not fail — every step
+re-checks its precondition on the object it is about to convert. -/
+theorem C18_safe_to_repeat (lib : List Nat) (r1 r2 : Nat) (f : File) (hwf : WF f)
+    (hok : (upgrade lib r1 f).2 = none) :
+    runSteps lib r2 (upgrade lib r1 f).1 (collect lib f) = ((upgrade lib r1 f).1, none) :=
+  stale_list_safe hwf hok
 
 /-- The upgraded file opens for writing (`File._check_header`): the version is the library's and,
 where the library demands one, the id is valid. -/
